@@ -111,6 +111,11 @@ func recipeEv(rc *recipe) Ev {
 	return Ev{"pat": rc.pat, "n": rc.n, "A": digits(rc.A), "B": digits(rc.B), "C": digits(rc.C), "D": digits(rc.D)}
 }
 
+// a multi-exponentiation of the sizes driven here takes well under a second; 100x that is the limit
+const msmWatchdog = 25 * time.Second
+
+var msmHangs int
+
 // withWatchdog runs f and reports whether it finished within the limit.
 func withWatchdog(limit time.Duration, f func()) bool {
 	done := make(chan struct{})
@@ -127,6 +132,9 @@ func withWatchdog(limit time.Duration, f func()) bool {
 }
 
 func (g *Group) msmEvent(t *TraceWriter, rc *recipe, points, scalars reflect.Value, variant string, c int, nbTasks, procs int, probe bool) {
+	if msmHangs >= 3 {
+		return // three calls already hung (each is reported): do not wait for more
+	}
 	e := recipeEv(rc)
 	e["op"] = variant
 	e["g"] = g.G
@@ -146,7 +154,7 @@ func (g *Group) msmEvent(t *TraceWriter, rc *recipe, points, scalars reflect.Val
 	var pm string
 	var pk bool
 	var recv reflect.Value
-	ok := withWatchdog(120*time.Second, func() {
+	ok := withWatchdog(msmWatchdog, func() {
 		switch variant {
 		case "MultiExp.jac":
 			recv = g.NewJac()
@@ -162,6 +170,7 @@ func (g *Group) msmEvent(t *TraceWriter, rc *recipe, points, scalars reflect.Val
 	})
 	switch {
 	case !ok:
+		msmHangs++
 		e["hang"] = true
 	case pk:
 		e["panic"] = pm
